@@ -21,5 +21,10 @@ fn main() {
     cfg!(&mut run, d64, 1, BigRef);
     cfg!(&mut run, d64, 2, BigRef);
     cfg!(&mut run, d64, 3, BigRef);
+    // digit counts that leave 5, 7 and 3 digits after whole 64-bit words (u8 / u16 digits), 10 x u32
+    cfg!(&mut run, d8, 7, BigRef);
+    cfg!(&mut run, d8, 13, BigRef);
+    cfg!(&mut run, d16, 11, BigRef);
+    cfg!(&mut run, d32, 10, BigRef);
     std::process::exit(run.finish());
 }
